@@ -15,7 +15,7 @@ import (
 type genCfg struct {
 	blocks    int
 	maxEvents int
-	dupid     bool // allow two OperatorAdded with the same id in one block (finding F-C11)
+	dupid     bool // allow two OperatorAdded with the same id in one block (finding F10, fixed)
 	stale     bool // now and then feed a block that is not newer than the last processed one
 	crashy    bool // favour events with key-manager side effects
 }
@@ -285,7 +285,14 @@ func (g *gen) event() *absEvent {
 		return &absEvent{kind: "FR", owner: uint64(1 + r.Intn(4)), fee: uint64(1 + r.Intn(5))}
 	case x < 86: // OperatorAdded
 		e := &absEvent{kind: "OA", owner: uint64(1 + r.Intn(3)), pk: uint64(2 + r.Intn(8))}
+		var inBlock []uint64
+		for id := range g.added {
+			inBlock = append(inBlock, id)
+		}
+		sortU(inBlock)
 		switch {
+		case g.cfg.dupid && len(inBlock) > 0 && r.Chance(1, 5): // an id added earlier in this very block
+			e.id = inBlock[r.Intn(len(inBlock))]
 		case r.Chance(1, 4) && len(g.opIDs) > 0: // an id that exists already
 			e.id = g.opIDs[r.Intn(len(g.opIDs))]
 		default:
